@@ -496,6 +496,55 @@ def check_light(case):
 CHECKS["light"] = check_light
 
 
+_COMPANIONS = None
+
+
+def companions():
+    """for each of the ten classes X: short permutations covering the nine other classes, none
+    of them in X; and likewise within the four rightmost / the four topmost classes"""
+    global _COMPANIONS
+    if _COMPANIONS is None:
+        pool = [p for p in ref.perms_upto(5, 2)]
+        res = {}
+        for group_name, group in (("poly", sorted(TEN)), ("right", sorted(P_CLASSES)), ("top", sorted(V_CLASSES))):
+            for X in group:
+                comp = []
+                for Y in group:
+                    if Y == X:
+                        continue
+                    cands = [q for q in pool if in_class(q, Y) and not in_class(q, X)]
+                    if not cands:
+                        raise engine.HarnessError(f"no companion in {Y} outside {X}")
+                    comp.append(cands[0])
+                res[(group_name, X)] = comp
+        _COMPANIONS = res
+    return _COMPANIONS
+
+
+def check_membership(case):
+    """Membership of one permutation in each of the ten minimal classes (and each of the four
+    rightmost / topmost juxtaposition classes), read off the public verdicts: with companions
+    covering every other class and none of them in X, the verdict is positive iff p is in X."""
+    p = tuple(case)
+    for (group, X), comp in companions().items():
+        basis = [Perm(q) for q in comp] + [Perm(p)]
+        want = in_class(p, X)
+        fn = {"poly": permutils.is_polynomial, "right": permutils.is_insertion_encodable_rightmost, "top": permutils.is_insertion_encodable_maximum}[group]
+        got = fn(basis)
+        if got != want:
+            return BAD("membership_" + group, {"class": X, "perm": list(p), "companions": [list(q) for q in comp], "got": got, "want": want})
+    return OK(any(in_class(p, X) for X in TEN), "membership", key="mem" + str(p))
+
+
+CHECKS["membership"] = check_membership
+
+
+def shard_membership(acc, shard, nshards, max_len):
+    for i, p in enumerate(ref.perms_upto(max_len, 1)):
+        if i % nshards == shard:
+            acc.record("membership", check_membership, list(p))
+
+
 def shard_light(acc, shard, nshards, pair_len, triple_len):
     i = 0
     pats = [list(p) for p in ref.perms_upto(pair_len, 1)]
@@ -522,6 +571,7 @@ FUZZ = {"history": ("history", history_cases)}
 
 
 def run(acc, tier):
+    engine.pmap(acc, shard_membership, extra=((7,) if tier == "quick" else (8,)))
     engine.pmap(acc, shard_light, extra=((5, 4) if tier == "quick" else (6, 4)))
     if tier == "quick":
         engine.pmap(acc, shard_exhaustive, extra=(3, 2))
